@@ -4,7 +4,7 @@
    rev_twos_comp_repr / const_postchecks are Gen/Conv.v, regenerated from pyrtl's source on every
    run; infer / verilog_parse / formatted_* / bitpattern_* are the hand models of Conv/Str.v. *)
 From PyRTL Require Import Base.PyZ Conv.ConvBase Gen.Conv Conv.Spec Conv.Str Conv.ConvProofs Conv.StrProofs
-  Conv.FmtProofs Conv.PatProofs Conv.ParseProofs.
+  Conv.FmtProofs Conv.PatProofs Conv.ParseProofs Gen.ConvFmt Conv.FmtBridge.
 
 (* --- infer_val_and_bitwidth on integers: accepts exactly the representable triples --- *)
 Theorem C16_int_accepts_iff_representable : forall v w signed,
@@ -239,6 +239,42 @@ Theorem C16_formatted_unknown_type_rejected : forall v d f ty w es,
 Proof. exact formatted_unknown_type. Qed.
 Print Assumptions C16_formatted_unknown_type_rejected.
 
+(* --- the same, about the source text itself: src_formatted_str_to_val / src_val_to_formatted_str are
+   Gen/ConvFmt.v, REGENERATED from the two functions of helperfuncs.py statement by statement on every
+   run (strings as code lists; s[k], l[k], int(), a negative shift count and val_to_signed_integer
+   raise in evaluation order).  They accept exactly what the definitions above accept, with the same
+   results -- for every data string, format string and enum_set: *)
+Theorem C16_src_formatted_str_to_val_is_model : forall data f es,
+  res_opt (src_formatted_str_to_val data f es) = res_opt (formatted_str_to_val data f es).
+Proof. exact src_formatted_str_to_val_bridge. Qed.
+Print Assumptions C16_src_formatted_str_to_val_is_model.
+
+Theorem C16_src_val_to_formatted_str_is_model : forall v f es,
+  res_opt (src_val_to_formatted_str v f es) = res_opt (val_to_formatted_str v f es).
+Proof. exact src_val_to_formatted_str_bridge. Qed.
+Print Assumptions C16_src_val_to_formatted_str_is_model.
+
+(* hence the round trips hold of the regenerated source functions *)
+Theorem C16_src_formatted_roundtrip : forall v f ty w es,
+  format_parse f = Some (ty, w) -> fmt_type_ok ty -> 1 <= w -> 0 <= v < 2 ^ w ->
+  exists s, src_val_to_formatted_str v f es = Ok s /\ src_formatted_str_to_val s f es = Ok v.
+Proof. exact src_formatted_roundtrip. Qed.
+Print Assumptions C16_src_formatted_roundtrip.
+
+Theorem C16_src_formatted_roundtrip_enum : forall v f w es n e s,
+  format_parse f = Some (101, w) -> enum_name f = Some n ->
+  enum_set_distinct es -> In (n, e) es -> enum_names_distinct e ->
+  src_val_to_formatted_str v f es = Ok s -> src_formatted_str_to_val s f es = Ok v.
+Proof. exact src_formatted_roundtrip_enum. Qed.
+Print Assumptions C16_src_formatted_roundtrip_enum.
+
+(* the hypothesis `format_parse f = Some (ty, w)` holds of every format string "<type><decimal w>[/...]" *)
+Theorem C16_format_parse_print : forall ty w tail,
+  0 <= w -> (tail = [] \/ exists t, tail = 47 :: t) ->
+  format_parse (ty :: nat_str 10 w ++ tail) = Some (ty, w).
+Proof. exact format_parse_print. Qed.
+Print Assumptions C16_format_parse_print.
+
 (* the digit-string model itself: int(str(n)) = n for every integer, int(digits(n, radix), radix) = n *)
 Theorem C16_int_of_str_roundtrip : forall n, py_int 10 (py_str n) = Some n.
 Proof. exact py_int_py_str. Qed.
@@ -318,4 +354,14 @@ Example C16_example_print :
   verilog_parse [45; 49; 50; 39; 72; 48; 102; 95; 70] = Ok (true, 12, 255) /\
   infer (RStr [45; 49; 50; 39; 72; 48; 102; 95; 70]) None false = Ok (3841, 12) /\
   const_model (RStr [45; 49; 50; 39; 72; 48; 102; 95; 70]) (Some 12) false = Ok (3841, 12).
+Proof. vm_compute. repeat split; reflexivity. Qed.
+
+(* the regenerated source functions on "s3": 5 prints as "-3" and reads back; a negative width in the
+   format string is a ValueError (code 1002) in both directions; "e3/C" goes through the enum idioms *)
+Example C16_example_src_format :
+  src_val_to_formatted_str 5 [115; 51] [] = Ok [45; 51] /\
+  src_formatted_str_to_val [45; 51] [115; 51] [] = Ok 5 /\
+  src_formatted_str_to_val [49] [117; 45; 49] [] = Err 1002 /\
+  src_val_to_formatted_str 5 [101; 51; 47; 67] [([67; 67], [([66], 5)]); ([67], [([65], 5)])] = Ok [65] /\
+  src_formatted_str_to_val [65] [101; 51; 47; 67] [([67; 67], [([66], 5)]); ([67], [([65], 5)])] = Ok 5.
 Proof. vm_compute. repeat split; reflexivity. Qed.
